@@ -33,7 +33,7 @@ var pinnedCases = []pinnedCase{
 	{"C03", "break-reached-by-backward-goto-after-closure", "local f\nfor i = 1, 1 do\n local v = 10\n ::top::\n if f then break end\n f = function() v = v + 1 return v end\n goto top\nend\nlocal a, b, c, d, e = 100, 200, 300, 400, 500\nreturn f(), f(), e", "11|12|500", nil},
 	{"C03", "getfenv-invalid-levels", `return pcall(getfenv, 50), pcall(getfenv, -1), pcall(setfenv, 50, {}), pcall(setfenv, -1, {}), getfenv(0) == _G, getfenv(1) == _G`, "false|false|false|false|true|true", nil},
 	// C06
-	{"C06", "resume-with-more-arguments-than-fit", `local t = {} for i = 1, 3000 do t[i] = i end local co = coroutine.create(function() local function f(...) coroutine.yield() return select("#", ...) end return f(unpack(t)) end) coroutine.resume(co) local ok = pcall(coroutine.resume, co, unpack(t)) return ok, coroutine.status(co), coroutine.resume(co)`, "false|suspended|true|3000", nil},
+	{"C06", "resume-with-more-arguments-than-fit", `local t = {} for i = 1, 3000 do t[i] = i end local co = coroutine.create(function() local function f(...) coroutine.yield() return select("#", ...) end return f(unpack(t)) end) coroutine.resume(co) local ok = pcall(coroutine.resume, co, unpack(t)) return ok, coroutine.status(co), (coroutine.resume(co)), coroutine.status(co)`, "false|suspended|false|dead", nil},
 	// C12
 	{"C12", "minstack-overflow-is-the-ordinary-error", `local function r(n) return 1 + r(n + 1) end local ok, m = pcall(r, 1) return ok, (m:gsub("^.-:%d+: ", ""))`, "false|stack overflow", &lua.Options{CallStackSize: 32, MinimizeStackMemory: true}},
 	{"C12", "fixed-overflow-is-the-ordinary-error", `local function r(n) return 1 + r(n + 1) end local ok, m = pcall(r, 1) return ok, (m:gsub("^.-:%d+: ", ""))`, "false|stack overflow", &lua.Options{CallStackSize: 32}},
